@@ -55,17 +55,58 @@ theorem isInst_setField {c : Nat} {v : Val} (a : Nat) (x : Val) (h : IsInst c v)
   obtain ⟨fs, rfl⟩ := h
   exact ⟨fs.set a x, rfl⟩
 
-theorem mutateAttrV_isInst {c : Nat} {obj r : Val} {sp : AttrSpec} {v : Val} (h : IsInst c obj)
-    (hr : mutateAttrV E obj sp v = .ok r) : IsInst c r := by
+theorem isInst_resetDependant {c : Nat} {obj : Val} (d : Nat) (h : IsInst c obj) : IsInst c (resetDependant E obj d) := by
+  unfold resetDependant
+  split
+  · exact h
+  · split
+    · exact isInst_setField _ _ h
+    · split
+      · exact isInst_setField _ _ h
+      · exact h
+
+theorem isInst_invalidateAux {c : Nat} (names : List Nat) :
+    ∀ (k : Nat) (obj : Val) (a : Nat), IsInst c obj → IsInst c (invalidateAux E names k obj a)
+  | 0, obj, a, h => h
+  | k+1, obj, a, h => by
+    simp only [invalidateAux]
+    have : ∀ (l : List Nat) (init : Val), IsInst c init →
+        IsInst c (l.foldl (fun acc d =>
+          if dependsOn E acc d a then invalidateAux E names k (resetDependant E acc d) d else acc) init) := by
+      intro l
+      induction l with
+      | nil => intro init hi; exact hi
+      | cons x xs ih =>
+        intro init hi
+        simp only [List.foldl]
+        apply ih
+        split
+        · exact isInst_invalidateAux names k _ x (isInst_resetDependant E x hi)
+        · exact hi
+    exact this names obj h
+
+theorem isInst_invalidate {c : Nat} {obj : Val} (a : Nat) (h : IsInst c obj) : IsInst c (E.invalidate obj a) := by
+  obtain ⟨fs, rfl⟩ := h
+  unfold Env.invalidate
+  simp only []
+  split
+  · exact isInst_invalidateAux E _ _ _ a ⟨fs, rfl⟩
+  · exact ⟨fs, rfl⟩
+
+theorem mutateAttrV_isInst {c : Nat} {obj r : Val} {sp : AttrSpec} {v : Val} {skip : Bool} (h : IsInst c obj)
+    (hr : mutateAttrV E skip obj sp v = .ok r) : IsInst c r := by
   unfold mutateAttrV at hr
   split at hr
   · cases hr; exact h
   · split at hr
     · cases hr
-    · cases hr; exact isInst_setField _ _ h
+    · cases hr
+      split
+      · exact isInst_setField _ _ h
+      · exact isInst_invalidate E _ (isInst_setField _ _ h)
 
-theorem setAttrV_isInst {n c : Nat} {obj r : Val} {a : Nat} {v : Val} (h : IsInst c obj)
-    (hr : setAttrV E n obj a v = .ok r) : IsInst c r := by
+theorem setAttrV_isInst {n c : Nat} {obj r : Val} {a : Nat} {v : Val} {skip : Bool} (h : IsInst c obj)
+    (hr : setAttrV E n skip obj a v = .ok r) : IsInst c r := by
   obtain ⟨fs, rfl⟩ := h
   cases n with
   | zero => rw [setAttrV] at hr; cases hr
@@ -164,6 +205,7 @@ theorem mvConstruct_cast (m : Nat) (p : MV) (ty : Ty) (v : Val) (h : p.ty = some
         | builtin d => by_cases he : dkw.isEmpty = true <;> simp [he, Except.map]
         | coll e => rfl
         | uncallable => rfl
+        | noinst => rfl
   | sc s => simp [hm, Except.map]
   | list xs => simp [Except.map]
   | set xs => simp [Except.map]
@@ -208,7 +250,7 @@ theorem mvAttrs_used (set : Val → Nat → Val → Except Err Val) (used : List
 
 /-- step 5 with no keyword consumed is `Spec.merge` -/
 theorem mvAttrs_merge (n : Nat) (kw : Kw) (v : Val) :
-    mvAttrs (setAttrV E n) [] kw v = Spec.merge E n v kw := by
+    mvAttrs (setAttrV E n false) [] kw v = Spec.merge E n v kw := by
   unfold mvAttrs Spec.merge
   by_cases he : kw.isEmpty = true
   · simp [he]
@@ -221,7 +263,7 @@ theorem mvAttrs_merge (n : Nat) (kw : Kw) (v : Val) :
       simp
 
 theorem mvAttrTransforms_mergeT (n : Nat) (kt : KwT) (v : Val) :
-    mvAttrTransforms E (setAttrV E n) kt v = Spec.mergeT E n v kt := rfl
+    mvAttrTransforms E (setAttrV E n false) kt v = Spec.mergeT E n v kt := rfl
 
 
 /-! ## `prepare_attr_value` in the documented cases -/
@@ -672,5 +714,140 @@ theorem good_transformTop (n : Nat) (recv : Val) (f : Option Tr) (kt : KwT) (i c
         · split
           · exact good_noop recv
           · exact good_outcomeOf recv _ i
+
+
+/-! ## invalidation: the dependants of a written attribute are back at their defaults -/
+
+theorem flds_get_set_ne (a d : Nat) (v : Val) (h : a ≠ d) : ∀ (fs : Flds), (fs.set a v).get d = fs.get d
+  | .nil => by simp [Flds.set, Flds.get, h]
+  | .cons a' v' r => by
+    simp only [Flds.set]
+    split
+    · rename_i heq; subst heq; simp [Flds.get, h]
+    · simp only [Flds.get]; split
+      · rfl
+      · exact flds_get_set_ne a d v h r
+
+theorem flds_get_set_eq (a : Nat) (v : Val) : ∀ (fs : Flds), (fs.set a v).get a = v
+  | .nil => by simp [Flds.set, Flds.get]
+  | .cons a' v' r => by
+    simp only [Flds.set]
+    split
+    · rename_i heq; subst heq; simp [Flds.get]
+    · rename_i hne; simp only [Flds.get, hne, if_false]; exact flds_get_set_eq a v r
+
+/-- "`d` is at its default": the instance is of class `c` and its field `d` holds `dv` -/
+def AtDefault (c d : Nat) (dv : Val) (obj : Val) : Prop := IsInst c obj ∧ obj.getAttr d = dv
+
+theorem specOf_isInst {c : Nat} {obj : Val} (d : Nat) (h : IsInst c obj) : specOf E obj d = E.attr? c d := by
+  obtain ⟨fs, rfl⟩ := h; rfl
+
+theorem atDefault_reset_self {c d : Nat} {sp : AttrSpec} {obj : Val} (hi : IsInst c obj)
+    (hsp : E.attr? c d = some sp) (hok : sp.defaultVal = MISSING ∨ conforms E sp.ty sp.defaultVal = true) :
+    AtDefault c d sp.defaultVal (resetDependant E obj d) := by
+  unfold resetDependant
+  rw [specOf_isInst E d hi, hsp]
+  obtain ⟨fs, rfl⟩ := hi
+  simp only []
+  split
+  · rename_i hm
+    exact ⟨⟨_, rfl⟩, by simp [Val.setField, Val.getAttr, flds_get_set_eq, hm]⟩
+  · rename_i hm
+    rcases hok with h | h
+    · exact absurd h hm
+    · simp only [h, if_true]
+      exact ⟨⟨_, rfl⟩, by simp [Val.setField, Val.getAttr, flds_get_set_eq]⟩
+
+theorem atDefault_reset_other {c d : Nat} {dv : Val} {sp : AttrSpec} {obj : Val} (x : Nat)
+    (hsp : E.attr? c d = some sp) (hdv : dv = sp.defaultVal)
+    (hok : sp.defaultVal = MISSING ∨ conforms E sp.ty sp.defaultVal = true)
+    (h : AtDefault c d dv obj) : AtDefault c d dv (resetDependant E obj x) := by
+  by_cases hx : x = d
+  · subst hx; subst hdv; exact atDefault_reset_self E h.1 hsp hok
+  · obtain ⟨⟨fs, rfl⟩, hg⟩ := h
+    unfold resetDependant
+    cases specOf E (.inst c fs) x with
+    | none => exact ⟨⟨fs, rfl⟩, hg⟩
+    | some spx =>
+      simp only []
+      split
+      · exact ⟨⟨_, rfl⟩, by simpa [Val.setField, Val.getAttr, flds_get_set_ne x d _ hx] using hg⟩
+      · split
+        · exact ⟨⟨_, rfl⟩, by simpa [Val.setField, Val.getAttr, flds_get_set_ne x d _ hx] using hg⟩
+        · exact ⟨⟨fs, rfl⟩, hg⟩
+
+theorem atDefault_invalidateAux {c d : Nat} {dv : Val} {sp : AttrSpec} (names : List Nat)
+    (hsp : E.attr? c d = some sp) (hdv : dv = sp.defaultVal)
+    (hok : sp.defaultVal = MISSING ∨ conforms E sp.ty sp.defaultVal = true) :
+    ∀ (k : Nat) (obj : Val) (a : Nat), AtDefault c d dv obj → AtDefault c d dv (invalidateAux E names k obj a)
+  | 0, obj, a, h => h
+  | k+1, obj, a, h => by
+    simp only [invalidateAux]
+    have : ∀ (l : List Nat) (init : Val), AtDefault c d dv init →
+        AtDefault c d dv (l.foldl (fun acc x =>
+          if dependsOn E acc x a then invalidateAux E names k (resetDependant E acc x) x else acc) init) := by
+      intro l
+      induction l with
+      | nil => intro init hi; exact hi
+      | cons x xs ih =>
+        intro init hi
+        simp only [List.foldl]
+        apply ih
+        split
+        · exact atDefault_invalidateAux names hsp hdv hok k _ x (atDefault_reset_other E x hsp hdv hok hi)
+        · exact hi
+    exact this names obj h
+
+/-- one round of `invalidate_attrs(obj, a)` puts every direct dependant `d` of `a` at its default -/
+theorem invalidateAux_resets {c d a : Nat} {sp : AttrSpec} (names : List Nat) (k : Nat) (obj : Val)
+    (hi : IsInst c obj) (hsp : E.attr? c d = some sp) (hdep : sp.invalidatedBy.contains a = true) (hne : d ≠ a)
+    (hmem : d ∈ names) (hok : sp.defaultVal = MISSING ∨ conforms E sp.ty sp.defaultVal = true) :
+    AtDefault c d sp.defaultVal (invalidateAux E names (k+1) obj a) := by
+  simp only [invalidateAux]
+  have hdepOn : ∀ acc, IsInst c acc → dependsOn E acc d a = true := by
+    intro acc hacc
+    unfold dependsOn
+    rw [specOf_isInst E d hacc, hsp]
+    simp only [hdep, Bool.true_and]
+    simp [hne]
+  have : ∀ (l : List Nat) (init : Val), IsInst c init → d ∈ l →
+      AtDefault c d sp.defaultVal (l.foldl (fun acc x =>
+        if dependsOn E acc x a then invalidateAux E names k (resetDependant E acc x) x else acc) init) := by
+    intro l
+    induction l with
+    | nil => intro init _ hm; cases hm
+    | cons x xs ih =>
+      intro init hinit hm
+      simp only [List.foldl]
+      have hstep_inst : IsInst c (if dependsOn E init x a then invalidateAux E names k (resetDependant E init x) x else init) := by
+        split
+        · exact isInst_invalidateAux E names k _ x (isInst_resetDependant E x hinit)
+        · exact hinit
+      by_cases hx : x = d
+      · subst hx
+        rw [hdepOn init hinit]
+        simp only [if_true]
+        -- established here; the remaining steps preserve it
+        have hP := atDefault_invalidateAux E names hsp rfl hok k _ x (atDefault_reset_self E hinit hsp hok)
+        have : ∀ (l' : List Nat) (init' : Val), AtDefault c x sp.defaultVal init' →
+            AtDefault c x sp.defaultVal (l'.foldl (fun acc y =>
+              if dependsOn E acc y a then invalidateAux E names k (resetDependant E acc y) y else acc) init') := by
+          intro l'
+          induction l' with
+          | nil => intro init' h'; exact h'
+          | cons y ys ih' =>
+            intro init' h'
+            simp only [List.foldl]
+            apply ih'
+            split
+            · exact atDefault_invalidateAux E names hsp rfl hok k _ y (atDefault_reset_other E y hsp rfl hok h')
+            · exact h'
+        exact this xs _ hP
+      · have hm' : d ∈ xs := by
+          rcases List.mem_cons.1 hm with h' | h'
+          · exact absurd h'.symm hx
+          · exact h'
+        exact ih _ hstep_inst hm'
+  exact this names obj hi hmem
 
 end SpecVerif.C05.Proofs
